@@ -49,7 +49,7 @@ func (x *inst) Do(t int, op sim.Op) sim.Rec {
 func gen(r *sim.Rng, tier string) *sim.Case {
 	maxT, maxOps := 4, 4
 	if tier == "thorough" {
-		maxT, maxOps = 6, 8
+		maxT, maxOps = 6, 5
 	}
 	c := &sim.Case{Params: map[string]int{}}
 	nT := r.Range(1, maxT)
@@ -78,6 +78,14 @@ func gen(r *sim.Rng, tier string) *sim.Case {
 		}
 		total += n
 		c.Programs = append(c.Programs, prog)
+	}
+	// unbounded pushes always succeed, so many orders are consistent: keep histories short
+	for total > 24 {
+		t := r.N(nT)
+		if len(c.Programs[t]) > 1 {
+			c.Programs[t] = c.Programs[t][:len(c.Programs[t])-1]
+			total--
+		}
 	}
 	probe := -1
 	if r.Pct(65) {
@@ -312,7 +320,10 @@ func check(run *enga.Run) *sim.Violation {
 			ops = append(ops, o)
 		}
 	}
-	if len(ops) > 0 && len(ops) <= 60 {
+	if len(ops) > 28 {
+		run.Out.Probes["history_too_long_for_linearizability_check"]++
+	}
+	if len(ops) > 0 && len(ops) <= 28 {
 		switch enga.CheckLin(enga.QueueModel(-1, x.init), ops) {
 		case porcupine.Ok:
 			run.Out.PorcOK++
